@@ -1,4 +1,7 @@
 """C01 — an acknowledged sync restores to exactly the source database."""
+import os
+
+from .. import common as C
 from . import db_common as D
 
 PID = "C01"
@@ -17,7 +20,45 @@ def run(v):
              "(db, -wal) (only litestream's seq row page and the page-1 change counters may differ); every single verify+sync step "
              "is also compared with the Coq model. distinct = distinct (config, op sequence); non-trivial = at least one acknowledged instant.",
              extra_args=(() if v.tier == "quick" else ("-sweep",)))
+    queued_ack_phase(v)
+
+
+def queued_ack_phase(v):
+    """The one concurrent shape of an acknowledgement the single-threaded histories cannot produce: an
+    acknowledging replica sync QUEUED behind an upload pass that started before the newest level-0 file
+    existed (seeds C12d, C01e). Scenario queuedsync of the conc harness, built under its own name."""
+    import json
+    import shutil
+    binp = os.path.join(C.BIN, "h_conc_c01")
+    ok, o = C.build_harness("conc", out=binp)
+    if not ok:
+        v.violation("C01/harness-build-conc", "conc harness does not build against the current /repo tree: " + o[-1500:],
+                    {"theorem_or_correspondence": "scenario queuedsync (harness build)"}, False)
+        return
+    out = os.path.join(C.WORK, PID, "queued")
+    shutil.rmtree(out, ignore_errors=True)
+    os.makedirs(out, exist_ok=True)
+    rc, o = C.sh([binp, "conc", "-out", out, "-seed", str(v.seed), "-n", "0", "-f9=false", "-regsched", "0", "-regstress", "0",
+                  "-ckptfail=false", "-halfinit=false", "-snapdup", "0", "-queuedsync=true"], timeout=1200)
+    sp = os.path.join(out, "stats.json")
+    if rc != 0 or not os.path.exists(sp):
+        v.violation("C01/harness-run-conc", "conc harness exit %s: %s" % (rc, o[-1000:]),
+                    {"theorem_or_correspondence": "scenario queuedsync (harness run)"}, False)
+        return
+    st = json.load(open(sp))
+    v.coverage["queued_acknowledgement"] = (st.get("extra") or {}).get("queuedsync")
+    for iv in st.get("impl_violations") or []:
+        if "acknowledged-sync-did-not-upload" in iv["signature"]:
+            v.violation("C01/acknowledged-sync-did-not-upload@queued-behind-upload", iv["detail"], iv.get("replay") or {}, True)
 
 
 def replay(v, path):
+    import json
+    rep = json.load(open(path))
+    if "queued-behind-upload" in rep.get("signature", ""):
+        n0 = len(v.violations)
+        queued_ack_phase(v)
+        for x in v.violations[n0:]:
+            print("REPLAY-VIOLATION", x["signature"], x["detail"][:300])
+        return 1 if len(v.violations) > n0 else 0
     return D.replay_db(v, PID, path)
